@@ -185,7 +185,7 @@ impl<'tcx> Cx<'tcx> {
                     J::Arr(vec![J::s("subslice"), J::Int(from as i128), J::Int(to as i128), J::Bool(from_end)])
                 }
                 ProjectionElem::Downcast(name, v) => {
-                    J::Arr(vec![J::s("downcast"), J::Int(v.index() as i128), opt(name, |n| J::Str(n.to_string()))])
+                    J::Arr(vec![J::s("downcast"), J::Int(v.index() as i128), opt(name, |n| J::Str(n.to_string())), self.ty(ty.ty)])
                 }
                 ProjectionElem::OpaqueCast(_) => J::Arr(vec![J::s("opaque")]),
                 ProjectionElem::UnwrapUnsafeBinder(_) => J::Arr(vec![J::s("unwrap_binder")]),
@@ -824,6 +824,7 @@ impl<'tcx> Cx<'tcx> {
         let mut consts = Vec::new();
         let mut traits = Vec::new();
         let mut macros = Vec::new();
+        let mut aliases = Vec::new();
         for ldid in tcx.hir_crate_items(()).definitions() {
             let did = ldid.to_def_id();
             match tcx.def_kind(did) {
@@ -981,6 +982,16 @@ impl<'tcx> Cx<'tcx> {
                         ("items", J::Arr(items)),
                     ]));
                 }
+                DefKind::TyAlias => {
+                    let t = tcx.type_of(did).instantiate_identity().skip_norm_wip();
+                    aliases.push(J::Obj(vec![
+                        ("key", J::Str(self.key(did))),
+                        ("name", J::Str(tcx.item_name(did).to_string())),
+                        ("ty", self.ty(t)),
+                        ("vis", J::Str(if tcx.visibility(did).is_public() { "pub".to_string() } else { "restricted".to_string() })),
+                        ("span", self.span(tcx.def_span(did))),
+                    ]));
+                }
                 DefKind::Macro(_) => {
                     macros.push(J::Obj(vec![
                         ("key", J::Str(self.key(did))),
@@ -997,6 +1008,7 @@ impl<'tcx> Cx<'tcx> {
         out.push(("consts", J::Arr(consts)));
         out.push(("traits", J::Arr(traits)));
         out.push(("macros", J::Arr(macros)));
+        out.push(("aliases", J::Arr(aliases)));
     }
 }
 
